@@ -1,6 +1,6 @@
 (* C01 - Every wire sample becomes exactly one point, in order, in exactly one frame. *)
 From RS Require Import Base.Tac Base.Bytes Base.Dyadic Model.Desc Model.Kernels Model.Decoder Model.Driver Model.Oracles.
-From RS Require Import Gen.Params_gen Proofs.Stream Proofs.DriverInv Proofs.Conservation Proofs.Slots.
+From RS Require Import Gen.Params_gen Gen.Kernels_gen Proofs.Stream Proofs.DriverInv Proofs.Conservation Proofs.Slots Proofs.Handover.
 Local Open Scope Z_scope.
 
 (* T1: for every session (any descriptor, configuration, packet list, clock readings) in which the
@@ -89,6 +89,16 @@ Qed.
 Theorem C01_T5_threshold n : overflow_guard n = true <-> n > 1000000.
 Proof. exact (overflow_guard_iff n). Qed.
 Print Assumptions C01_T5_overflow_discards.
+
+(* T6: the frame hand-over as the current source does it (splitFrame() regenerated as a statement tree and interpreted, see C06_T7):
+   a non-empty open frame goes to the put callback whole - every point it holds, in order, under the frame's number and buffer -
+   and only then is the caller asked for the next buffer; the decoder goes on with an empty one *)
+Theorem C01_T6_code_hands_over_whole_frame v th now ts p ps : v_open v = p :: ps ->
+  exists s c rest, run sst (s_atom now ts) s_cond 8 LidarDriverImpl_splitFrame_effects (mk_sst v th [] None None) = Go s /\
+                   s_out s = OCloud c :: rest /\ cl_points c = p :: ps /\ cl_seq c = v_cloud_seq v /\ cl_buf c = v_open_buf v /\
+                   v_open (s_v s) = [] /\ v_cloud_seq (s_v s) = (v_cloud_seq v + 1) mod 4294967296.
+Proof. exact (splitFrame_code_whole_frame v th now ts p ps). Qed.
+Print Assumptions C01_T6_code_hands_over_whole_frame.
 
 (* non-vacuity: a concrete RS32 session satisfies no_overflow and produces clouds *)
 Example C01_nonvacuous :
